@@ -20,6 +20,8 @@ OL_NONLOCAL_DICT: _ol_reserved_name = "__ol_nonlocal_{}"
 OL_CLASS_DICT: _ol_reserved_name = "__ol_classnsp_{}"
 OL_CLASS_LOADER: _ol_reserved_name = "__ol_loader_{}"
 OL_IMPORT_TMP: _ol_reserved_name = "__ol_mod_{}"
+OL_ITERTOOLS: _ol_reserved_name = "__ol_itertools"  # don't need format here
+OL_IMPORTLIB: _ol_reserved_name = "__ol_importlib"  # don't need format here
 OL_CLASS_MEMBER_NAME: _ol_reserved_name = "__ol_member_name"  # don't need format here
 OL_CLASS_MEMBER_VALUE: _ol_reserved_name = "__ol_member_value"  # don't need format here
 
